@@ -108,8 +108,25 @@ fn table_features(t: Option<&MTable>) -> String {
             if t.def.cols.iter().any(|c| c.auto_inc) {
                 f.push("autoinc");
             }
-            if t.def.cols.iter().any(|c| c.check.is_some()) {
-                f.push("check");
+            for c in &t.def.cols {
+                match &c.check {
+                    Some(Pred::Between(..)) => {
+                        if !f.contains(&"check-between") {
+                            f.push("check-between")
+                        }
+                    }
+                    Some(Pred::Cmp(_, CmpOp::Ne, _)) => {
+                        if !f.contains(&"check-ne") {
+                            f.push("check-ne")
+                        }
+                    }
+                    Some(_) => {
+                        if !f.contains(&"check") {
+                            f.push("check")
+                        }
+                    }
+                    None => {}
+                }
             }
             if t.rows.iter().any(|r| r.iter().any(|v| matches!(v, Val::Text(s) if s.len() > 1000) || matches!(v, Val::Blob(b) if b.len() > 1000))) {
                 f.push("toast");
@@ -565,6 +582,7 @@ pub fn run_history(ctx: &mut Ctx, src: &mut Source, seed: u64) -> Option<History
     let n_ops = ctx.swarm.n_ops;
     let mut step_idx = 0usize;
     let mut sched = Rng::new(mix(seed, 0x5C4ED));
+    let mut rolled_back = false;
     loop {
         if ctx.stop {
             break;
@@ -619,6 +637,25 @@ pub fn run_history(ctx: &mut Ctx, src: &mut Source, seed: u64) -> Option<History
         }
 
         let pred = model.predict(s, op);
+        // which kinds of writes would a rollback undo? (signature of C07 verdicts)
+        let undone_kinds: String = {
+            let mut ks: Vec<&str> = vec![];
+            if let Some(t) = model.sessions[s].txn.as_ref() {
+                let from = match op {
+                    Op::RollbackTo(n) => t.saves.iter().rposition(|(x, _)| x == n).map(|p| p),
+                    _ => None,
+                };
+                let _ = from;
+                for w in &t.writes {
+                    let k = w.kind();
+                    if !ks.contains(&k) {
+                        ks.push(k);
+                    }
+                }
+            }
+            ks.sort();
+            ks.join("+")
+        };
         let view_before = model.view(s).clone();
         let committed_before = model.committed.clone();
         let in_txn_before = model.in_txn(s);
@@ -672,6 +709,16 @@ pub fn run_history(ctx: &mut Ctx, src: &mut Source, seed: u64) -> Option<History
             ("features", feat.clone()),
             ("shape", stmt_shape(op, &pred)),
             ("long_value", op_has_long(op).to_string()),
+            (
+                "db_has_toast",
+                view_before
+                    .tables
+                    .values()
+                    .chain(model.committed.tables.values())
+                    .any(|t| t.rows.iter().any(|r| r.iter().any(is_long)))
+                    .to_string(),
+            ),
+            ("rolled_back", rolled_back.to_string()),
             ("pred_on_toast_col", pred_on_toast_col(op, tname.as_ref().and_then(|t| view_before.tables.get(t))).to_string()),
         ];
         let desc = format!("step {} [s{}] {}", step_idx, s, op.short());
@@ -810,6 +857,9 @@ pub fn run_history(ctx: &mut Ctx, src: &mut Source, seed: u64) -> Option<History
             (_, Actual::Panic(_)) => unreachable!(),
         }
 
+        if matches!(op, Op::Rollback | Op::RollbackTo(_)) && actual.is_ok() {
+            rolled_back = true;
+        }
         // ---- lifecycle bookkeeping
         if matches!(op, Op::CloseReopen | Op::DropReopen) && !effect_applied {
             // reopen failed: nothing more to do in this run
@@ -873,7 +923,10 @@ pub fn run_history(ctx: &mut Ctx, src: &mut Source, seed: u64) -> Option<History
                     ("C06", if fault_fired { "effect-after-io-error" } else { "effect-after-error" })
                 } else {
                     match op {
-                        Op::Rollback | Op::RollbackTo(_) => ("C07", "rollback-state-mismatch"),
+                        Op::Rollback | Op::RollbackTo(_) => {
+                            sig.push(("undone", undone_kinds.clone()));
+                            ("C07", "rollback-state-mismatch")
+                        }
                         Op::Checkpoint | Op::PragmaCheckpoint | Op::CloseReopen | Op::DropReopen => ("C04", "lifecycle-state-mismatch"),
                         Op::Bulk { .. } => ("C43", "bulk-state-mismatch"),
                         o if o.is_ddl() => ("C21", "ddl-state-mismatch"),
